@@ -236,6 +236,11 @@ def check(prog, rep):
     from ..rules_store import ddl_facts
 
     ddl_facts(prog, rep)
+    # ... and every statement that writes or reads event rows is tied to the addressed bucket (a write that takes another
+    # bucket's row removes it from that bucket's windows)
+    from ..rules_store import scope_sqlite
+
+    scope_sqlite(prog, rep, methods={"insert_one", "insert_many", "get_events", "get_eventcount", "replace", "replace_last", "delete"})
     pm = pred_memory(prog, rep)
     ps = pred_sqlite(prog, rep)
     pp = pred_peewee(prog, rep)
